@@ -1,3 +1,5 @@
+#[cfg(okane_verif)]
+use crate::verif::std;
 use std::borrow::Cow;
 use std::collections::HashMap;
 use std::convert::{TryFrom, TryInto};
